@@ -439,7 +439,11 @@ class Unit:
                 pat = r'\s+'.join(re.escape(tok) for tok in a.split())
                 text, n = sub_outside_comments(pat, b_.replace('\\', '\\\\'), text)
                 if n == 0:
-                    raise LostAnchor('R-subst anchor %r not found in %s' % (a, label))
+                    if label in getattr(self, 'force_external', ()):
+                        continue    # body is dropped anyway (function left unverified)
+                    ex = LostAnchor('R-subst anchor %r not found in %s' % (a, label))
+                    ex.label = label
+                    raise ex
                 self.rules.hit('R-subst', n)
         ft = X.FnText(text)
         sig = ft.signature()
